@@ -301,16 +301,24 @@ def r5_consumer_accounting(prog, rep: Report, pf: PoolFacts):
                 if tgt is pf.get_results:
                     recv = [src(x) for x in st.targets[0].elts]
         pair_loops = [st for st in loop.body if isinstance(st, ast.For) and isinstance(st.iter, ast.Call) and src(st.iter.func) == "zip"]
-        if recv is None or len(pair_loops) != 1:
+        # a consumer that does not order its output needs the chunks only: `for chunk in chunks`
+        chunk_loops = [st for st in loop.body if isinstance(st, ast.For) and recv is not None and isinstance(st.iter, ast.Name)
+                       and st.iter.id == recv[1] and isinstance(st.target, ast.Name)] if not pair_loops else []
+        if recv is None or len(pair_loops) + len(chunk_loops) != 1:
             rep.unrec("C01.R5", f, "accounting", "receive statement `idx, chunks = self._get_results()` / loop over zip(idx, chunks) not found")
             continue
-        pl = pair_loops[0]
-        if [src(a) for a in pl.iter.args] != recv:
-            probs.append(f"the loop pairs `{src(pl.iter)}` instead of zip({', '.join(recv)})")
-        if not (isinstance(pl.target, ast.Tuple) and len(pl.target.elts) == 2):
-            rep.unrec("C01.R5", f, "accounting", "pair loop target is not (index, chunk)")
-            continue
-        ri, rc = (src(x) for x in pl.target.elts)
+        pl = (pair_loops or chunk_loops)[0]
+        if pair_loops:
+            if [src(a) for a in pl.iter.args] != recv:
+                probs.append(f"the loop pairs `{src(pl.iter)}` instead of zip({', '.join(recv)})")
+            if not (isinstance(pl.target, ast.Tuple) and len(pl.target.elts) == 2):
+                rep.unrec("C01.R5", f, "accounting", "pair loop target is not (index, chunk)")
+                continue
+            ri, rc = (src(x) for x in pl.target.elts)
+        else:
+            ri, rc = None, pl.target.id
+            if any(isinstance(st, ast.For) and isinstance(st.iter, ast.Call) and isinstance(st.iter.func, ast.Name) for st in pl.body):
+                probs.append("the chunks are handed to a reorder buffer without their indices")
         if any(isinstance(n, (ast.Break, ast.Continue, ast.Return)) for n in ast.walk(pl)):
             probs.append("break/continue/return inside the result loop: received chunks can be skipped")
         # ordered consumer: for ch in buffer(ri, rc): count, yield all
@@ -346,12 +354,37 @@ def r5_consumer_accounting(prog, rep: Report, pf: PoolFacts):
             role = "unordered"
         # finished counter compared with the sent counter by <
         good_cmp = False
+        from ..orderings import NotAFormula, eval_order, weak_orderings
+        cnt_src = f"{f.self_name}.{pf.counter}"
+
+        def _term(x, env_):
+            if src(x) == fin:
+                return env_["fin"]
+            if src(x) == cnt_src:
+                return env_["cnt"]
+            return None
         for n in ast.walk(test):
-            if isinstance(n, ast.Compare) and len(n.ops) == 1:
-                l, r = src(n.left), src(n.comparators[0])
-                if (l == fin and r == f"{f.self_name}.{pf.counter}" and isinstance(n.ops[0], (ast.Lt, ast.NotEq))) or \
-                        (r == fin and l == f"{f.self_name}.{pf.counter}" and isinstance(n.ops[0], (ast.Gt, ast.NotEq))):
+            # a comparison of the two counters, possibly negated (`not finished >= sent` after a `while True ... break` rewrite):
+            # it must hold while finished < sent and fail when they are equal
+            cand = n
+            if isinstance(n, ast.UnaryOp) and isinstance(n.op, ast.Not) and isinstance(n.operand, ast.Compare):
+                cand = n
+            elif not isinstance(n, ast.Compare):
+                continue
+            cmp_ = cand.operand if isinstance(cand, ast.UnaryOp) else cand
+            if len(cmp_.ops) != 1 or {src(cmp_.left), src(cmp_.comparators[0])} != {fin, cnt_src}:
+                continue
+            par = getattr(n, "_parent", None)
+            if isinstance(n, ast.Compare) and isinstance(par, ast.UnaryOp) and isinstance(par.op, ast.Not):
+                continue                      # judged together with its negation
+            try:
+                vals = {}
+                for w_ in weak_orderings(["fin", "cnt"]):
+                    vals[(w_["fin"] < w_["cnt"], w_["fin"] == w_["cnt"])] = eval_order(cand, w_, lambda x, e_=w_: _term(x, e_))
+                if vals.get((True, False)) is True and vals.get((False, True)) is False:
                     good_cmp = True
+            except NotAFormula:
+                pass
         if not good_cmp:
             probs.append(f"the completion test does not compare `{fin} < self.{pf.counter}`")
         rep.check("C01.R5", f, "accounting", not probs, f"{role}: pairs handed on in their roles, one increment and one complete yield per chunk",
